@@ -714,6 +714,12 @@ func (g *c02Gen) args(cur *c02Fn, depth int) string {
 
 func (g *c02Gen) stmt(cur *c02Fn, depth int, w func(string)) {
 	r := g.r
+	if cur != nil && cur.vararg && !cur.usesV && r.Chance(30) {
+		// the compat `arg` table belongs to this activation: a callee may use it as scratch space; later calls
+		// (of any function, with or without extra arguments) must get a fresh one
+		w(Pick(r, []string{"arg[#arg + 1] = 'scratch'", "arg.n = arg.n + 1", "table.insert(arg, 1, 'first')", "arg[1] = nil", "arg.extra = x", "arg[arg.n + 2] = y"}))
+		return
+	}
 	switch r.Intn(11) {
 	case 0:
 		w(g.call(cur, depth))
@@ -1224,6 +1230,18 @@ return f(N, 1, 2)`,
 	`local function loop(n, ...) if n % 100000 == 0 then probe() end if n == 0 then return select('#', ...) end return loop(n - 1, gk(...)) end return loop(N, 1, 2)`,
 	// tail call of a host function at the end of a deep chain, method call sugar
 	`local o = {} function o:loop(n) if n % 100000 == 0 then probe() end if n == 0 then return gk(self, n) end return self:loop(n - 1) end return o:loop(N)`,
+	// `return f(args)` is a proper tail call wherever it stands and whatever the function has captured: locals of the
+	// function body captured by a closure …
+	`local keep local function loop(n, a) local k = n local f = function() return k end if n % 100000 == 0 then probe() keep = f end if n == 0 then return a + keep() end return loop(n - 1, a) end return loop(N, 7)`,
+	// … a captured local of an open do-block, written through the closure …
+	`local function loop(n) do local k = n local g = function() k = k + 1 return k end if n % 100000 == 0 then probe() end if n == 0 then return g() end return loop(n - 1) end end return loop(N)`,
+	// … inside the body of a numeric and of a generic for with a captured body local …
+	`local function loop(n) for i = 1, 1 do local k = i + n local f = function() return k end if n % 100000 == 0 then probe() end if n == 0 then return f() end return loop(n - 1) end end return loop(N)`,
+	`local one = {1} local function loop(n) for _, v in ipairs(one) do local f = function() return v end if n % 100000 == 0 then probe() end if n == 0 then return f() end return loop(n - 1) end end return loop(N)`,
+	// … inside while/repeat bodies and both branches of an if, captured parameter
+	`local function loop(n) local p = function() return n end while true do local w = n repeat local r = function() return w + p() end if n % 100000 == 0 then probe() end if n == 0 then return r() else return loop(n - 1) end until true end end return loop(N)`,
+	// … through a vararg function that captures its compat arg table
+	`local function loop(n, ...) local a = arg local f = function() return a.n end if n % 100000 == 0 then probe() end if n == 0 then return f() end return loop(n - 1, a[1], a[2]) end return loop(N, 1, 2)`,
 }
 
 // ops: tail <prog idx> <N>
